@@ -476,15 +476,33 @@ class FaultModel:
                     return {ExcT('<reraise>')}
                 if isinstance(a, FuncNode):
                     break
-            # local bound to a constructor call in the same unit
-            types: set[ExcT] = set()
-            for n in own_nodes(u.node):
-                if isinstance(n, ast.Assign) and any(isinstance(t, ast.Name) and t.id == e.id for t in n.targets):
-                    v = n.value
+            # local bound to a constructor call in the same unit (followed through plain copies: `err = built`, `built = TimeoutError(..)`, `built = e`)
+            handler_names = {a.name for a in ancestors(st) if isinstance(a, ast.ExceptHandler) and a.name}
+
+            def types_of(name: str, depth: int, seen: frozenset) -> set[ExcT]:
+                out_t: set[ExcT] = set()
+                for n in own_nodes(u.node):
+                    tgt = None
+                    if isinstance(n, ast.Assign) and any(isinstance(t, ast.Name) and t.id == name for t in n.targets):
+                        tgt = n.value
+                    elif isinstance(n, ast.AnnAssign) and isinstance(n.target, ast.Name) and n.target.id == name and n.value is not None:
+                        tgt = n.value
+                    if tgt is None:
+                        continue
+                    v = tgt
                     if isinstance(v, ast.Call) and isinstance(v.func, (ast.Name, ast.Attribute)):
-                        types.add(ExcT(self.h.canon(U(v.func))))
-                    elif isinstance(v, ast.BoolOp) or isinstance(v, ast.Attribute):
-                        types.add(ExcT('BaseException', False))
+                        out_t.add(ExcT(self.h.canon(U(v.func))))
+                    elif isinstance(v, ast.Constant) and v.value is None:
+                        continue  # a default the raise is never reached with
+                    elif isinstance(v, ast.Name) and v.id in handler_names:
+                        out_t.add(ExcT('<reraise>'))  # the exception object caught by the enclosing arm, handed on through a local
+                    elif isinstance(v, ast.Name) and depth < 4 and v.id not in seen:
+                        out_t |= types_of(v.id, depth + 1, seen | {name}) or {ExcT('BaseException', False)}
+                    else:
+                        out_t.add(ExcT('BaseException', False))
+                return out_t
+
+            types = types_of(e.id, 0, frozenset())
             if types:
                 return types
             if e.id in self.prog.classes or e.id in _STD:
